@@ -31,6 +31,9 @@ CLAIMED = {
  "C02": ("polynomial value congruence on SSA + must-pass-through (static)",
          "Structural preconditions of sound/complete triggering across block edges decided for every path: the two copies of the record length are congruent after every store that can change either; the history kept on trim is a*nsamp+b (a>=2,b>=0) of that copy; edge/level scan window = [max(LastTrigger-firstFrame+NSamples, NPresamples), len+NPresamples-NSamples), auto scan bounds, one-record dead time after an edge trigger; LastTrigger = last record's frame whenever records exist; reconfiguration resets the edge-multi state; the start path initialises the hold-off reference far in the past. Not decided: trigger criteria on sample values, non-overlap, auto-trigger gap bound.",
          "function and field names of the trigger passes are name-keyed anchors; scan-window formulas are compared as polynomials, so algebraically equivalent rewrites pass while a different window is reported", "DESIGN.md §2 C02"),
+ "C08": ("carried-state rule on the edge loop, polynomial congruence of the gap quantities and returned record specifications, must-pass-through of the validity gate, window relation and guard dominance on the trigger index (static)",
+         "Structural clauses decided: the edge search state (t, u, v, resume index) is seeded from the state object's fields and written back on every exit, the only re-seed being the guarded reset (block-boundary independence by construction); the gap quantities are min(post,u-t), min(pre,u-t-lastPost), min(post,v-u), the variable-length record is (u,pre',pre'+post'), fixed-length modes return exactly (u,npre,nsamp), the isolated mode only when both gaps reach full length, and the three sentinel states yield no record; reconfigurations end in the validity check whose clauses are the 4-sample margins and the monotone-count bound; last searchable index + look-ahead = len-1, look-ahead = nsamp-npre, first searchable index >= npre, and the trigger index entering a record is proven >= npre. Not decided: equality of record lists over all block partitions, non-overlap as a numeric fact, index safety inside the edge finder beyond the window relation; the history kept between blocks is C02.R2.",
+         "EMTState field and function names are name-keyed anchors; a user-defined min/max is recognised by shape", "DESIGN.md §2 C08"),
  "C09": ("counter/set pairing by control dependence, guard dominance (E6), who-may-reset reachability, must-pass-through of the state report, loop-unconditional refresh (static)",
          "Structural clauses decided for every path: the connection counter gating the distribution fast path equals the set size by construction (insert stores true and is paired with an absence-test-controlled increment, delete with a presence-test-controlled decrement, wholesale reset replaces every set and zeroes the counter, no other writers, reset reachable only from the stop-coupling request); both endpoints of an inserted pair proven in range and distinct, every table index proven in range; the reported state is a full transcription of the live table, no cached copy exists, and every request closure that can change the table publishes the recomputed state afterwards on every path; distribution refreshes every processor's primaries unconditionally each cycle, merges exactly the receiver's sources and hands each processor its own list; edit errors reach the reply. Not decided: multiset equality of emitted secondaries per cycle (runtime values).",
          "TriggerBroker and its field names are name-keyed anchors; equal-length invariants are derived (make with the same size value, size field not written in the run phase)", "DESIGN.md §2 C09"),
